@@ -1833,7 +1833,9 @@ class AgentThrottlesSerializer(se.SimpleSubfieldSerializer):
 
 @se.subfield_serializer("ObjectUpdate", "ObjectData", "NameValue")
 class NameValueSerializer(se.SimpleSubfieldSerializer):
-    TEMPLATE = NAMEVALUES_TERMINATED_TEMPLATE
+    # b"" <-> None, b"\x00" <-> [] so both wire forms of "no name-values" survive
+    EMPTY_IS_NONE = True
+    TEMPLATE = NAMEVALUES_COMPRESSED_TEMPLATE
 
 
 @se.enum_field_serializer("SetFollowCamProperties", "CameraProperty", "Type")
